@@ -201,6 +201,53 @@ theorem merger_output_within_rows (c : Cfg) (hits : List FHit) (traps : List Tra
   · exact inv.1 t h
   · exact inv.2 t h
 
+/-- **`clipping_never_grows`** — for arbitrary letters (runs of `N` anywhere in query or target),
+    arbitrary hits in any order, `maxIGap ≥ 1`: every trapezoid `FinaliseMerge` returns lies —
+    query rows *and* diagonal range — inside one of the trapezoids the merge walk built
+    (`s.active`, `s.done`): neither `clipVertical` nor `clipTrapezoids` ever grows a trapezoid.
+    (The diagonal half is `finalList_diag`, which `merger_self_clear_of_diagonal` uses; the vertical
+    half is new: the scan cuts at positions inside `[Bottom, Top]` only.) -/
+theorem clipping_never_grows (c : Cfg) (hg : 1 ≤ c.maxIGap) (hits : List FHit) (traps : List Trap)
+    (hm : merge c hits = some traps) :
+    ∃ s, mergeAll c St.init hits = some s ∧
+      ∀ t ∈ traps, ∃ t0, (t0 ∈ s.active ∨ t0 ∈ s.done) ∧
+        t0.bottom ≤ t.bottom ∧ t.top ≤ t0.top ∧ t0.left ≤ t.left ∧ t.right ≤ t0.right := by
+  obtain ⟨s, hs, rfl⟩ := merge_some hm
+  refine ⟨s, hs, ?_⟩
+  intro t ht
+  unfold finalise at ht
+  rw [mem_sortByBottom] at ht
+  exact finalList_within c hg s t ht
+
+/-- **`merger_output_rows_any_letters`** — hence, whatever the letters and the order of the hits:
+    when every hit has `0 ≤ From` and `To ≤ Qlen`, every returned trapezoid has `0 ≤ Bottom` and
+    `Top ≤ Qlen` (`merger_output_within_rows` without the assumption that no letter is invalid). -/
+theorem merger_output_rows_any_letters (c : Cfg) (hg : 1 ≤ c.maxIGap) (hits : List FHit) (traps : List Trap)
+    (hin : ∀ h ∈ hits, 0 ≤ h.from_ ∧ h.to ≤ c.qlen) (hm : merge c hits = some traps) :
+    ∀ t ∈ traps, 0 ≤ t.bottom ∧ t.top ≤ c.qlen := by
+  obtain ⟨s, hs, hall⟩ := clipping_never_grows c hg hits traps hm
+  have inv := mergeAll_forall c (fun t => 0 ≤ t.bottom ∧ t.top ≤ c.qlen)
+    (by intro x y hx hy
+        show 0 ≤ (absorb x y).bottom ∧ (absorb x y).top ≤ c.qlen
+        rw [absorb_bottom, absorb_top]; omega)
+    hits St.init s
+    (by intro h hh _
+        have := hin h hh
+        refine ⟨by simp only [fresh]; omega, ?_⟩
+        intro t ht
+        show 0 ≤ (widen c _ _ t).bottom ∧ (widen c _ _ t).top ≤ c.qlen
+        unfold widen; dsimp only
+        refine ⟨ht.1, ?_⟩
+        split <;> omega)
+    (by simp [St.init]) (by simp [St.init]) hs
+  intro t ht
+  obtain ⟨t0, ht0, h1, h2, _, _⟩ := hall t ht
+  have := (show 0 ≤ t0.bottom ∧ t0.top ≤ c.qlen from by
+    rcases ht0 with h | h
+    · exact inv.1 t0 h
+    · exact inv.2 t0 h)
+  omega
+
 /-- **`merger_total`** — inside the modelled domain (every hit either cut by the self-comparison
     test or with `-Diagonal ≤ Qlen` and `From - bottomPadding ≤ Qlen + 1`, which every hit of
     `filter.Filter` satisfies) the model never answers `none`: the sentinel of the active list
@@ -257,5 +304,13 @@ example : merge testCfg testHits = some
 example : merge { qv := Array.replicate 100 true, tv := Array.replicate 100 true, k := 4, maxError := 2,
                   tubeOffset := 8, maxIGap := 5, selfComparison := true } [⟨10, 30, -7⟩, ⟨12, 40, -8⟩]
     = some [⟨40, 12, 8, 17⟩] := by decide +kernel
+
+/-- non-vacuity of `clipping_never_grows` with a clip that really cuts: a run of six invalid query
+    letters at `[20, 26)` splits the trapezoid `40:0:2:5` of the single hit into `20:0:2:5` and
+    `40:26:2:5`, both within its rows -/
+example : merge { qv := Array.replicate 20 true ++ Array.replicate 6 false ++ Array.replicate 20 true,
+                  tv := Array.replicate 60 true, k := 4, maxError := 0, tubeOffset := 4, maxIGap := 5,
+                  selfComparison := false } [⟨0, 40, -2⟩]
+    = some [⟨20, 0, 2, 5⟩, ⟨40, 26, 2, 5⟩] := by decide +kernel
 
 end Biogo.Properties.C15_merge
